@@ -175,6 +175,21 @@ pub fn expr_text(r: &mut Rng, g: &mut ExprGen) -> String {
 }
 
 pub fn est_text(r: &mut Rng, g: &mut ExprGen, w: &World) -> String {
+    match r.below(20) {
+        0 | 1 | 2 => {
+            // a bare EST expression
+            let ty = if r.chance(50) { Ty::Bool } else { *r.pick(gen::ALL_TYS) };
+            let d = 1 + r.below(3) as u32;
+            let e = g.gen(r, ty, d);
+            let est: cedar_policy_core::est::Expr = e.into_expr::<cedar_policy_core::est::Builder>();
+            return serde_json::to_string(&est).unwrap_or_else(|_| "{}".into());
+        }
+        3 => {
+            let u = gen::gen_uid(r);
+            return if r.chance(50) { uid_json(&u).to_string() } else { json!({"__entity": uid_json(&u)}).to_string() };
+        }
+        _ => {}
+    }
     let text = policy_text(r, g, w);
     if r.chance(40) {
         if let Ok(ps) = api::PolicySet::from_str(&text) {
@@ -240,7 +255,13 @@ pub fn ffi_text(r: &mut Rng, g: &mut ExprGen, fx: &Fx) -> String {
         }
         3 | 4 => json!({"validationSettings": {"mode": *r.pick(&["strict", "permissive"])}, "schema": schema(r), "policies": pset(r, g)}).to_string(),
         5 => json!({"policyText": policy_text(r, g, w), "lineWidth": *r.pick(&[80, 0, 1, 40]), "indentWidth": *r.pick(&[2, 0, -1, 8])}).to_string(),
-        6 => json!({"entities": ents, "schema": schema(r)}).to_string(),
+        6 => {
+            if r.chance(50) {
+                json!({"entities": serde_json::from_str::<serde_json::Value>(ENTITIES_CONFORMANT).unwrap_or(json!([])), "schema": SCHEMA_1}).to_string()
+            } else {
+                json!({"entities": ents, "schema": schema(r)}).to_string()
+            }
+        }
         _ => json!({"context": ctx, "schema": schema(r), "action": uid_json(&w.action)}).to_string(),
     }
 }
@@ -267,7 +288,17 @@ pub fn base_doc(r: &mut Rng, g: &mut ExprGen, fx: &Fx, fam: Fam) -> Vec<u8> {
         Fam::Est => est_text(r, g, &wf.w).into_bytes(),
         Fam::SchemaCedar => fx.schema_cedar[r.below(fx.schema_cedar.len())].clone().into_bytes(),
         Fam::SchemaJson => fx.schema_json[r.below(fx.schema_json.len())].clone().into_bytes(),
-        Fam::Entities => if r.chance(30) { ENTITIES_CONFORMANT.as_bytes().to_vec() } else { wf.ents_json.clone().into_bytes() },
+        Fam::Entities => {
+            let doc = if r.chance(30) { ENTITIES_CONFORMANT.to_string() } else { wf.ents_json.clone() };
+            if r.chance(15) {
+                // a single entity object
+                let v: serde_json::Value = serde_json::from_str(&doc).unwrap_or(json!([]));
+                let one = v.as_array().and_then(|a| if a.is_empty() { None } else { Some(a[r.below(a.len())].clone()) }).unwrap_or(json!({}));
+                one.to_string().into_bytes()
+            } else {
+                doc.into_bytes()
+            }
+        }
         Fam::Context => wf.ctx_json.clone().into_bytes(),
         Fam::Ffi => ffi_text(r, g, fx).into_bytes(),
         Fam::Proto => proto_bytes(r, g, fx),
